@@ -43,6 +43,7 @@ Pending_List<Traits>::insert(const typename Traits::Threshold& deadline,
          && Traits::less_than(position->deadline(), deadline);
        ++position) {
   }
+  PPL_VERIF_POINT("insert.0");
   iterator pending_element_p;
   // Only allocate a new element if the free list is empty.
   if (free_list.empty()) {
@@ -53,10 +54,14 @@ Pending_List<Traits>::insert(const typename Traits::Threshold& deadline,
   }
   else {
     pending_element_p = free_list.begin();
+    PPL_VERIF_POINT("insert.1");
     free_list.erase(pending_element_p);
+    PPL_VERIF_POINT("insert.2");
     pending_element_p->assign(deadline, handler, expired_flag);
   }
+  PPL_VERIF_POINT("insert.3");
   iterator r = active_list.insert(position, *pending_element_p);
+  PPL_VERIF_POINT("insert.4");
   assert(OK());
   return r;
 }
